@@ -143,6 +143,29 @@ pub fn props(args: &[String]) {
             found.push(json!({"key": key, "text": text, "input": input}));
         }
     };
+    // two distinct elements whose hashes agree on the low 32 bits, the high 32 bits or the low 16 bits (a table keyed by a
+    // truncated hash would merge them): the sequence in both relative orders, l = 1 (order independent by C11)
+    for (what, mask) in [("low 32 bits", 0xFFFF_FFFFu64), ("high 32 bits", 0xFFFF_FFFF_0000_0000), ("low 16 bits", 0xFFFF)] {
+        if let Some((x, y)) = crate::util::fnv_colliding_pair(mask, 600_000) {
+            crate::util::tick_idx(0, json!({"colliding_pair": [x, y], "mask": what}));
+            let fwd: Vec<u64> = vec![x, y, 7, 8, 9, 10, 11, 12];
+            let bwd: Vec<u64> = vec![y, x, 7, 8, 9, 10, 11, 12];
+            for m in [16u32, 256] {
+                let r = catch_unwind(AssertUnwindSafe(|| {
+                    let mut s = ProbOrdMinHash2::<FnvHasher>::new(m, 1);
+                    let mut t = ProbOrdMinHash2::<FnvHasher>::new(m, 1);
+                    (s.hash_set(&fwd), t.hash_set(&bwd))
+                }));
+                if let Ok((a, b)) = r {
+                    if a != b {
+                        let ne = a.iter().zip(b.iter()).filter(|(p, q)| p != q).count();
+                        add("ord-l1-perm", format!("l=1, m={}: swapping the elements {} and {} (FnvHasher hashes equal on their {}) changes {} of {} positions", m, x, y, what, ne, m),
+                            json!({"m": m, "l": 1, "a": fwd, "b": bwd}));
+                    }
+                }
+            }
+        }
+    }
     // corpus: the minimised failure of the original early exit
     {
         let fwd: Vec<u64> = (0..20).collect();
@@ -314,10 +337,12 @@ pub fn props(args: &[String]) {
     }
     // long sequences on large sketches (sizes near the new literals): most items stop after very few draws;
     // the same sequence again, and reversed, on the same instance against a new sketcher
-    for (t, v) in crate::util::near_sizes_all(&xs, 6_000, 6).into_iter().enumerate() {
+    let mut big_sizes: Vec<u64> = crate::util::near_sizes_all(&xs, 6_000, 6);
+    if n >= 2000 { for v in [8193u64, 65536] { if !big_sizes.contains(&v) { big_sizes.push(v); } } }
+    for (t, v) in big_sizes.into_iter().enumerate() {
         {
             let m = v.max(2) as u32;
-            let n = 40_000u64;
+            let n = if v > 6_000 { 120_000u64 } else { 40_000u64 };
             tried += 1;
             crate::util::tick_idx(t as u64, json!({"m": m, "l": 1, "distinct_elements": n}));
             let data: Vec<u64> = (0..n).map(|i| i * 2654435761 + 5).collect();
